@@ -46,8 +46,8 @@ def _is_zero(n):
     s = n.strip()
     if s.k in ("IntegerLiteral", "CharacterLiteral") and s.j.get("val") == 0:
         return True
-    if s.k == "CXXBoolLiteralExpr":
-        return False
+    if s.k == "DeclRefExpr" and s.j.get("dk") == "enum" and s.j.get("val") == 0:
+        return True     # ECONF_SUCCESS
     return False
 
 
